@@ -1,6 +1,6 @@
 """Script building / output parsing for the solve domain (h_solve <-> drv_solve)."""
 from fractions import Fraction as F
-from gen_lp import lp_block, INF, NINF
+from gen_lp import lp_block, INF, NINF, pick_basic_set
 
 STATUS = {1: "OPTIMAL", 2: "INFEASIBLE", 3: "UNBOUNDED", 4: "ITER_LIMIT", 5: "TIME_LIMIT", 6: "UNSOLVED", 7: "ABORTED", 8: "NUMERR", 9: "OBJ_LIMIT", 100: "MODIFIED"}
 PPRICE = [1, 2, 3, 4]
@@ -222,9 +222,7 @@ def configs(rng, lp, k):
             cfg["maxit"] = rng.randint(1, 6)
         if cfg["warm"] == "arb":
             # arbitrary basis string: exactly m basics among n+m, the rest at a bound
-            idx = list(range(n + m))
-            rng.shuffle(idx)
-            bas = set(idx[:m])
+            bas = pick_basic_set(rng, lp)
             def cst(j):
                 lo, up = lp["cols"][j][2], lp["cols"][j][3]
                 opts = ([] if lo == NINF else ["0"]) + ([] if up == INF else ["2"])
